@@ -201,9 +201,11 @@ PROPS["C11"] = dict(
          "strings x limits {0,1,2,3,MAX}; inputs nested 10^3..10^6 levels on a 2 MiB stack (release build). Non-trivial = value with container "
          "nesting depth >= 2 (or a deep-nesting case); distinct = hash set of (type, bytes)" + FUZZ_RULE,
     assumptions=COMMON_ASSUMPTIONS + [
-        "depth_hi = longest chain of nested heap containers in the value; depth_lo = (longest chain of nested non-empty containers) - 1: the property "
-        "is read as 'element decoders are entered through more than L container levels', the reading under which the crate's own documented test "
-        "(4-level Vec<Vec<Vec<Vec<u8>>>> decodes with limit 3) satisfies it; the verdict uses only depth_lo <= threshold <= depth_hi",
+        "depth_hi = longest chain of nested heap containers in the value; depth_lo = longest chain of nested NON-EMPTY containers whose contents are "
+        "decoded element by element (strings, bit sequences, byte buffers and vectors / deques / heaps of primitive integers or floats are decoded as "
+        "one block and count as leaves): the property is read as 'element decoders are entered through more than L container levels', the reading "
+        "under which the crate's own documented test (4-level Vec<Vec<Vec<Vec<u8>>>> decodes with limit 3) satisfies it; the verdict uses only "
+        "depth_lo <= threshold <= depth_hi",
         "stack safety is observed on a fixed 2 MiB stack in the optimised build; a stack overflow kills the child and is attributed to the last case"],
     required=[("fuzz_executions", 20000), ("types_exercised", 200), ("limit_sweeps", 50000), ("limited_ok", 10000), ("limited_err", 5000), ("deep_cases", 48), ("deep_rejected", 36), ("deep_ok", 5)],
     stages=lambda tier: [native(), native(runtime="release", name="release-deep", shards=7, args=["--mode", "deep"], mem_gb=4), fuzz_aux("C11", tier)],
